@@ -744,7 +744,7 @@ pub(super) fn write_description(
     }
 }
 
-fn write_input_value(sdl: &mut String, input_value: &MetaInputValue) {
+pub(super) fn write_input_value(sdl: &mut String, input_value: &MetaInputValue) {
     if let Some(default_value) = &input_value.default_value {
         _ = write!(
             sdl,
